@@ -312,9 +312,10 @@ class Run:
         if self.level == "model_checking":
             if cov["states"] < 1 or cov["transitions"] < 1:
                 self.machinery_errors.append("no TLC states recorded")
-        os.makedirs(EVIDENCE, exist_ok=True)
-        with open(os.path.join(EVIDENCE, self.pid + ".json"), "w") as f:
-            json.dump(ev, f, indent=1)
+        if not getattr(self, "no_evidence", False):
+            os.makedirs(EVIDENCE, exist_ok=True)
+            with open(os.path.join(EVIDENCE, self.pid + ".json"), "w") as f:
+                json.dump(ev, f, indent=1)
         if self.machinery_errors and not self.violations:
             for m in self.machinery_errors:
                 log("MACHINERY-ERROR: " + m)
